@@ -588,4 +588,88 @@ theorem gmpscan_Z_field (b : Nat) (hb : b = 8 ∨ b = 10 ∨ b = 16) (sg body ta
   · rw [← List.append_assoc, List.drop_left']; simp
   · simp
 
+/-! ### groundwork for `%Zi` / `%Qi` (base detection); not yet used by a property theorem -/
+
+/-- base detection of `number` (doscan.c:246-266) -/
+def baseStep (W : Nat) (g : GS) : GS :=
+  let g := { g with base := 10 }
+  if g.c = some '0' then
+    let g := ({ (g.store '0') with seenDigit := true, base := 8 }).get W
+    if g.over then g else
+    if g.c = some 'x' ∨ g.c = some 'X' then
+      match g.c with
+      | some c => ({ (g.store c) with base := 16, seenDigit := false }).get W
+      | none => g
+    else g
+  else g
+
+theorem signStep_base (W : Nat) (g : GS) : (signStep W g).base = g.base := by
+  have gb : ∀ g : GS, (g.get W).base = g.base := by
+    intro g; unfold GS.get; split
+    · rfl
+    · split <;> rfl
+  unfold signStep
+  split <;> simp [gb, GS.store]
+
+theorem number_unfold (W pb : Nat) (g : GS) :
+    number W pb g =
+      if (signStep W { g with seenDigit := false }).over = true then signStep W { g with seenDigit := false }
+      else digitsLoop W ((if (signStep W { g with seenDigit := false }).base = 0 then baseStep W (signStep W { g with seenDigit := false })
+            else signStep W { g with seenDigit := false }).rest.length + 2)
+        (if (signStep W { g with seenDigit := false }).base = 0 then baseStep W (signStep W { g with seenDigit := false })
+            else signStep W { g with seenDigit := false }) := by
+  rfl
+
+
+theorem rep_get' (W : Nat) (g : GS) (c : Char) (t : List Char) (h : Rep W g (c :: t)) (ho : g.over = false) (hW : g.chars + 1 ≤ W) :
+    Rep W (g.get W) t ∧ (g.get W).chars = g.chars + 1 ∧ (g.get W).s = g.s ∧ (g.get W).base = g.base ∧
+    (g.get W).seenDigit = g.seenDigit ∧ (g.get W).over = false := by
+  obtain ⟨r1, r2, r3, r4, r5, r6⟩ := rep_get W g c t h ho
+  refine ⟨r1, r2, r3, r4, r5, ?_⟩
+  cases hov : (g.get W).over with
+  | false => rfl
+  | true => have := r6.mp hov; omega
+
+theorem baseStep_unfold (W : Nat) (g : GS) (G1 : GS)
+    (hG : G1 = ({ ({ g with base := 10 }.store '0') with seenDigit := true, base := 8 } : GS).get W) :
+    baseStep W g =
+      if g.c = some '0' then
+        (if G1.over = true then G1 else
+          if G1.c = some 'x' ∨ G1.c = some 'X' then
+            (match G1.c with
+             | some c => ({ (G1.store c) with base := 16, seenDigit := false } : GS).get W
+             | none => G1)
+          else G1)
+      else { g with base := 10 } := by
+  subst hG; rfl
+
+/-- base detection on "0x…" / "0X…" -/
+theorem baseStep_hex (W : Nat) (g : GS) (x : Char) (t : List Char) (hx : x = 'x' ∨ x = 'X')
+    (hrep : Rep W g ('0' :: x :: t)) (ho : g.over = false) (hW : g.chars + 2 ≤ W) :
+    Rep W (baseStep W g) t ∧ (baseStep W g).s = g.s ++ ['0', x] ∧ (baseStep W g).chars = g.chars + 2 ∧
+    (baseStep W g).base = 16 ∧ (baseStep W g).seenDigit = false ∧ (baseStep W g).over = false := by
+  obtain ⟨-, hcc, -⟩ := hrep.1 ho
+  simp only [List.head?_cons] at hcc
+  have hrep0 : Rep W { ({ g with base := 10 }.store '0') with seenDigit := true, base := 8 } ('0' :: x :: t) := hrep
+  obtain ⟨a1, a2, a3, a4, a5, a6⟩ := rep_get' W _ '0' (x :: t) hrep0 ho (by show g.chars + 1 ≤ W; omega)
+  obtain ⟨-, acc, -⟩ := a1.1 a6
+  simp only [List.head?_cons] at acc
+  have e := baseStep_unfold W g _ rfl
+  generalize ({ ({ g with base := 10 }.store '0') with seenDigit := true, base := 8 } : GS).get W = g1 at *
+  have hrep1 : Rep W { (g1.store x) with base := 16, seenDigit := false } (x :: t) := a1
+  obtain ⟨b1, b2, b3, b4, b5, b6⟩ := rep_get' W _ x t hrep1 a6 (by show g1.chars + 1 ≤ W; rw [a2]; show g.chars + 1 + 1 ≤ W; omega)
+  have hxx : (x = 'x' ∨ x = 'X') := hx
+  rw [e]
+  simp only [hcc, if_true, a6, Bool.false_eq_true, if_false, acc, Option.some.injEq, hxx]
+  refine ⟨b1, ?_, ?_, b4, b5, b6⟩
+  · rw [b3]; show g1.s ++ [x] = _; rw [a3]; simp [GS.store]
+  · rw [b2]; show g1.chars + 1 = _; rw [a2]; rfl
+
+/-- no leading 0: decimal -/
+theorem baseStep_dec (W : Nat) (g : GS) (rem : List Char) (h0 : rem.head? ≠ some '0') (hrep : Rep W g rem) (ho : g.over = false) :
+    baseStep W g = { g with base := 10 } := by
+  obtain ⟨-, hcc, -⟩ := hrep.1 ho
+  unfold baseStep
+  simp only [hcc, h0, if_false]
+
 end Mpir.Scanf
